@@ -52,12 +52,14 @@ class BanditConfig:
 
                 try:
                     with f:
-                        self._config = (
-                            tomllib.load(f).get("tool", {}).get("bandit", {})
-                        )
+                        tool = tomllib.load(f).get("tool", {})
                 except tomllib.TOMLDecodeError as err:
                     LOG.error(err)
                     raise utils.ConfigError("Error parsing file.", config_file)
+                # a `tool` entry that is not a table is not a mapping either
+                self._config = (
+                    tool.get("bandit", {}) if isinstance(tool, dict) else tool
+                )
             else:
                 try:
                     with f:
@@ -66,11 +68,11 @@ class BanditConfig:
                     LOG.error(err)
                     raise utils.ConfigError("Error parsing file.", config_file)
 
-            self.validate(config_file)
-
             # valid config must be a dict
             if not isinstance(self._config, dict):
                 raise utils.ConfigError("Error parsing file.", config_file)
+
+            self.validate(config_file)
 
             self.convert_legacy_config()
 
